@@ -127,7 +127,7 @@ def run(ctx):
 
     if ctx.replay:
         rep = json.load(open(ctx.replay))
-        variants = [(rep.get("variant", "a0"), [rep["case"]])]
+        variants = [] if rep.get("harness") == "gpt_sched" else [(rep.get("variant", "a0"), [rep["case"]])]    # gpt_sched: part D only
     else:
         corpus = C04.load_corpus("C05")
         n = 3000 if thorough else 1000
@@ -240,6 +240,11 @@ def run(ctx):
                 ctx.violation("%s: the program hung or crashed (rc=%s) while running a case" % (what, rc2), {"case": missing, "flavour": fl, "reps": reps})
             expl_cov[fl] = agg
 
+    # ---- D: general_threaded, the real code under the scheduler (reclamation thread free), monitors only (checks/C04_gpt.py)
+    import C04_gpt
+    hung = any("hung or crashed" in w for w, _ in ctx.violations)
+    gpt_cov = C04_gpt.run_gpt_sched(ctx) if not hung else {"skipped": "a harness hung or crashed before"}
+
     if ctx.thorough() and res.ok and not ctx.replay:
         rcq, outq = vcheck.coqchk("LV.Properties.Properties_C05")
         ctx.coverage["coqchk"] = "ok" if rcq == 0 else outq[-400:]
@@ -248,22 +253,23 @@ def run(ctx):
     if not res.ok:
         ctx.violation("Coq obligations of C05 do not check: %s" % (res.failed[:2],), {"theorem": [f[2] for f in res.failed], "errors": res.failed[:3]}, no_input=True)
     ctx.coverage.update({
-        "evaluations": ncases + obs["cases"] + sum(v["runs"] for v in expl_cov.values()),
+        "evaluations": ncases + obs["cases"] + sum(v["runs"] for v in expl_cov.values()) + gpt_cov.get("finished", 0),
         "distinct_nontrivial": len(tot["nontrivial"]),
-        "rule": "A: program x schedule pairs on general_buffered with the atomic buffer (capacities 1-4, counting / non-counting), step by step against the model; distinct = distinct model event logs, non-trivial = a flip_and_wait wait loop went round at least once. B: same generator on the default buffer type, monitors only. C: real-thread runs (cases x repetitions), monitors only.",
+        "rule": "D: the real general_threaded under the scheduler, monitors only (see general_threaded_scheduled). A: program x schedule pairs on general_buffered with the atomic buffer (capacities 1-4, counting / non-counting), step by step against the model; distinct = distinct model event logs, non-trivial = a flip_and_wait wait loop went round at least once. B: same generator on the default buffer type, monitors only. C: real-thread runs (cases x repetitions), monitors only.",
         "step_correspondence_cases": ncases, "distinct_event_logs": len(tot["shapes"]), "impl_steps_compared": tot["steps"], "diverged": tot["diverged"], "overruns": tot["overruns"],
         "traces_validated_against_impl": ncases - tot["diverged"],
         "capacity_histogram": caps, "buffer_branch_histogram": bh, "op_histogram": tot["ops"], "branch_histogram": tot["branches"],
         "observable_default_buffer": obs,
         "exploration_real_threads": {"note": "exploration of the real code (OS scheduling, random yields), not a proof and not a step correspondence", "per_flavour": expl_cov},
+        "general_threaded_scheduled": gpt_cov,
         "samples": samples[:2],
         "modelled": "general_buffered::retire_ptr/batch_retire/push_buffer/synchronize/clear_buffer/Destruct over an abstract bounded FIFO; gp core as in C04",
     })
     return ctx.finish(vcheck.STD_TRUSTED + ["hook layer: khizmax_libcds_verif::atomic<T>, baton scheduler, event log (hooks/include)", "ocaml/conc_main.ml event printer",
-                                            "harness/C04/rcu_harness.h, harness/C05/main.cpp (AtomicBuf wrapper: one scheduling point per buffer operation), harness/C05/explore.cpp"],
+                                            "harness/C04/rcu_harness.h, harness/C05/main.cpp (AtomicBuf wrapper: one scheduling point per buffer operation), harness/C05/explore.cpp"] + C04_gpt.TRUSTED,
                       ["sequential consistency: memory_order arguments and fences are not modelled",
                        "the buffer is an abstract bounded FIFO with atomic push/pop/size (its linearizability is property C07); the step correspondence runs the real Vyukov queue atomically inside each buffer operation",
-                       "general_threaded, signal_buffered: Coq models (LV.Model.RcuThreaded, LV.Model.RcuSignal) with atomic hand-offs / atomic signal delivery as stated modelling assumptions; NO step correspondence for them (they cannot run under the baton scheduler) - their tie to the code is reading plus the real-thread exploration with the monitors",
+                       "general_threaded, signal_buffered: Coq models (LV.Model.RcuThreaded, LV.Model.RcuSignal) with atomic hand-offs / atomic signal delivery as stated modelling assumptions; NO step correspondence for them; general_threaded's tie to the code is the real code under the deterministic scheduler with the monitors (part D, reclamation thread unscheduled) plus the real-thread exploration; signal_buffered's is reading plus the real-thread exploration (signal handlers cannot run under the baton scheduler)",
                        "Destruct disposes without a grace period: the grace-period theorem does not cover disposals at Destruct (they are counted, C05), the client must have no reader inside",
                        "m_nCurEpoch (uint64_t) is an unbounded integer in the model",
-                       "client contract as in C04"])
+                       "client contract as in C04"] + C04_gpt.ASSUMPTIONS)
